@@ -21,6 +21,29 @@ def _socket_audit(counter):
     return hook
 
 
+def _ambient(h, events):
+    """Process-global settings a user may legitimately have changed before using the library, varied from case to case: how numpy
+    and pandas PRINT things, and how far the global random streams have been consumed.  None of them is an input of any
+    property, so no verdict may depend on them (every check that needs a reproducible stream seeds it itself)."""
+    import random as _r
+    import numpy as _np
+    import pandas as _pd
+    k = int(h[:8], 16)
+    thr = (1000, 3, 20, 50, 0)[k % 5]
+    _np.set_printoptions(threshold=thr, edgeitems=(3, 1, 2)[(k // 5) % 3], precision=(8, 2, 17, 0)[(k // 15) % 4],
+                         suppress=bool((k // 60) % 2), linewidth=(75, 20, 200)[(k // 120) % 3],
+                         floatmode=("maxprec", "fixed", "unique")[(k // 360) % 3], sign=("-", "+", " ")[(k // 1080) % 3])
+    _pd.set_option("display.max_rows", (60, 2, None)[(k // 7) % 3])
+    _pd.set_option("display.max_columns", (0, 2, None)[(k // 21) % 3])
+    _pd.set_option("display.precision", (6, 1, 15)[(k // 63) % 3])
+    _pd.set_option("display.width", (80, 10)[(k // 189) % 2])
+    for _ in range(k % 4):
+        _r.random()
+    _np.random.random(k % 3)
+    if thr < 50:
+        events["cases_under_abbreviating_numpy_print_options"] += 1
+
+
 def main(argv):
     prop_id, shard_path, out_path = argv[1:4]
     with open(shard_path) as f:
@@ -59,6 +82,7 @@ def main(argv):
         t0 = time.time()
         obs = Obs()
         obs.case_hash = jhash(case)
+        _ambient(obs.case_hash, events)
         try:
             r = mod.run_case(case, obs)
             if r is not None:
